@@ -1,3 +1,4 @@
+import XdsVerif.Model.Handlers
 import XdsVerif.Model.Seq
 import XdsVerif.Model.Resolve
 import XdsVerif.Model.Bootstrap
